@@ -7,14 +7,14 @@ Import ListNotations.
 Local Open Scope Z_scope.
 
 Section Envelope.
-Variables (c : cfg) (sh : share) (vid role h ld v fdlen : N) (p2p : bool) (rawlen dlen pkprefix : N).
+Variables (c : cfg) (sh : share) (vid role h rho ld v fdlen nrc : N) (p2p : bool) (rawlen dlen pkprefix : N).
 
 Definition henv (t s : N) : envelope :=
   {| e_p2p := p2p; e_raw_len := rawlen; e_topic := Some (pkprefix mod subnetsCount)%N;
      e_op_found := true; e_op_key_ok := true; e_rsa_ok := true; e_ssv_decode_ok := true;
      e_data_len := dlen; e_domain := c_domain c; e_pk_prefix := pkprefix; e_role := role;
      e_pk_deser_ok := true; e_vid := vid; e_msg_type := ssvConsensusMsgType;
-     e_body := BConsensus (hmsg h v fdlen t s) |}.
+     e_body := BConsensus (hmsg h rho v fdlen nrc t s) |}.
 
 Hypothesis W : wf_cfg c.
 Hypothesis Hshare : get_share c vid = Some sh.
@@ -27,28 +27,31 @@ Hypothesis Hr0 : (messageOffset < rawlen)%N.
 Hypothesis Hr1 : (rawlen <= maxEncodedMsgSize)%N.
 Hypothesis Hrole : (N.eqb role roleValidatorRegistration || N.eqb role roleVoluntaryExit) = false.
 Hypothesis Hvalid : valid_role role = true.
-Hypothesis Hleader : round_robin (s_committee sh) h firstRound = LeaderIs ld.
-Hypothesis Hrr : rr_defined sh h firstRound = true.
+Hypothesis Hleader : round_robin (s_committee sh) h rho = LeaderIs ld.
+Hypothesis Hrr : rr_defined sh h rho = true.
 Hypothesis Hfd : fdlen <> 0%N.
+Hypothesis Hrho1 : (firstRound <= rho)%N.
+Hypothesis Hrho2 : (rho <= 2)%N.
 
 Definition key : N * N := (vid, role).
 Definition in_slot (now : Z * Z) : Prop := wf_time c now /\ true_slot c (fst now) = Z.of_N h.
 
 Lemma honest_envelope_accepted : forall now sent vs t s,
   in_slot now ->
-  inv h v sent (get_cs key vs) -> honest_item sh ld (t, s) -> ~ In (t, s) sent ->
+  inv h rho v sent (get_cs key vs) -> honest_item sh ld (t, s) -> ~ In (t, s) sent ->
   exists vs', validate c vs now (henv t s) = (Accept, vs') /\
-              inv h v ((t, s) :: sent) (get_cs key vs').
+              inv h rho v ((t, s) :: sent) (get_cs key vs').
 Proof.
   intros now sent vs t s [T Hslot] I Hh Hn.
   set (recv := time_unix (fst now) (snd now)).
   pose proof (own_slot_passes_slot_time c now role h W T Hslot) as Ht1.
-  pose proof (own_slot_round_one_in_window c now h W T Hslot) as Ht2.
+  pose proof (own_slot_round_in_window c now h rho W T Hslot Hrho2) as Ht2.
+  assert (Hrho6 : (rho <= 6)%N) by lia.
   assert (Hcore : forall verifier, run_verifier verifier = None ->
             exists vs', validate_ssv c vs recv (henv t s) verifier = (Accept, vs') /\
-                        inv h v ((t, s) :: sent) (get_cs key vs')).
+                        inv h rho v ((t, s) :: sent) (get_cs key vs')).
   { intros verifier Hv.
-    destruct (honest_message_accepted c sh role h ld v fdlen Hrole Hvalid Hmeta Hleader Hrr Hfd
+    destruct (honest_message_accepted c sh role h rho ld v fdlen nrc Hrole Hvalid Hmeta Hleader Hrr Hfd Hrho1 Hrho6
                 recv verifier sent (get_cs key vs) t s Ht1 Ht2 Hv I Hh Hn) as (cs' & Ev & I').
     unfold validate_ssv. cbn [henv e_data_len e_domain e_role e_pk_deser_ok e_vid e_msg_type e_body].
     destruct (N.eqb_spec dlen 0); [contradiction|].
@@ -75,14 +78,14 @@ Qed.
 
 (* a whole round through [Model.run] *)
 Theorem honest_round_accepted_at_the_gate : forall l vs,
-  (forall s, get_signer s (get_cs key vs) = None) ->
+  before_round h rho (get_cs key vs) ->
   NoDup (map snd l) ->
   Forall (fun x => in_slot (fst x) /\ honest_item sh ld (snd x)) l ->
   Forall (eq Accept) (snd (run c vs (map (fun x => (fst x, henv (fst (snd x)) (snd (snd x)))) l))).
 Proof.
   intros l vs Hfresh Hnd Hall.
   assert (G : forall l sent vs,
-            inv h v sent (get_cs key vs) -> NoDup (map snd l) ->
+            inv h rho v sent (get_cs key vs) -> NoDup (map snd l) ->
             (forall x, In x l -> ~ In (snd x) sent) ->
             Forall (fun x => in_slot (fst x) /\ honest_item sh ld (snd x)) l ->
             Forall (eq Accept) (snd (run c vs (map (fun x => (fst x, henv (fst (snd x)) (snd (snd x)))) l)))).
@@ -100,7 +103,7 @@ Proof.
     - apply Hni. rewrite E. apply in_map. exact Hx.
     - eapply Hf; [right; exact Hx|exact E]. }
   apply (G l [] vs); auto.
-  intros s. unfold inv, sinv. rewrite Hfresh. intros t [].
+  apply before_round_inv. exact Hfresh.
 Qed.
 
 End Envelope.
